@@ -6,6 +6,7 @@ from harness.core import Prop
 ROWKINDS = [(None, 0), (None, 1), (1, 0), (1, 1), (2, 0), (2, 1)]
 _FS = None
 _N = 0
+BSLIT = r"'a\\tb'"          # SQL text: 'a\\tb' (the backslash doubled, as Snowflake's literal syntax requires)
 
 
 def lit(v):
@@ -31,21 +32,29 @@ def merge_sql(op, sc):
         tname, T = "tg t", "t"
     if form in ("subq", "tq_subq"):
         using, S = "(select * from src) as s", "s"
+    elif form == "setexpr":
+        # the source under a name that sorts AFTER the target's, and a SET expression that also reads the target's column of the
+        # same bare name (n = tg.n * 0 + zs.n is zs.n)
+        using, S = "(select * from src) as zs", "zs"
     elif form == "salias":
         using, S = "src s", "s"
     elif form == "sq":
         using = f"db1.{sc}.src"
     cond = {"none": "", "sn0": f" and {S}.n = 0", "tn0": f" and {T}.n = 0"}
+    if form == "bslash":
+        # an always-true conjunct whose text literal holds a backslash: BSLIT is the four characters a, backslash, t, b
+        cond = {k: v + " and length(" + BSLIT + ") = 4" for k, v in cond.items()}
+    setn = f"{T}.n * 0 + {S}.n" if form == "setexpr" else f"{S}.n"
     parts = [f"merge into {tname} using {using} on {T}.id = {S}.id"]
     for cl in op["cl"]:
         if cl["k"] == "upd":
-            parts.append(f"when matched{cond[cl['c']]} then update set n = {S}.n")
+            parts.append(f"when matched{cond[cl['c']]} then update set n = {setn}")
         elif cl["k"] == "del":
             parts.append(f"when matched{cond[cl['c']]} then delete")
         else:
             parts.append(f"when not matched{cond[cl['c']]} then insert (id, n) values ({S}.id, {S}.n)")
     sql = " ".join(parts)
-    return sql.upper() if op["kw"] == "upper" else sql
+    return sql.upper().replace(BSLIT.upper(), BSLIT) if op["kw"] == "upper" else sql
 
 
 class C12(Prop):
@@ -56,13 +65,14 @@ class C12(Prop):
     assumptions = [
         "target <= MaxT rows, source <= MaxS rows over id in {NULL,1,2} x n in {0,1}; ON t.id = s.id; clause lists of length <= MaxCl over "
         "UPDATE SET n = s.n / DELETE / INSERT with conditions none, s.n = 0, t.n = 0; only deterministic merges (as the property says)",
-        "render forms: plain, qualified target, subquery source, target alias, source alias, qualified source; lower / upper case keywords",
+        "render forms: plain, qualified target, subquery source, target alias, source alias, qualified source, a SET expression reading both "
+        "tables' columns of one name, a text literal with a backslash in the conditions; lower / upper case keywords",
         "atomicity under a failing sub-statement is not exercised (no failing merge is in the vocabulary)",
     ]
 
     def consts(self, tier):
         return {"MaxT": 3, "MaxS": 2, "MaxCl": 3, "CondsUsed": {"none", "sn0", "tn0"},
-                "FormsUsed": {"plain", "tq", "subq", "tq_subq", "talias", "salias", "sq"}}
+                "FormsUsed": {"plain", "tq", "subq", "tq_subq", "talias", "salias", "sq", "setexpr", "bslash"}}
 
     def model_checks(self, tier):
         big = tier == "thorough"
@@ -70,7 +80,8 @@ class C12(Prop):
              "Devs": set(), "Depth": 3, "MaxFails": 0, "SampleOneIn": 1}
         out = [dict(name="mc_ideal", consts=c, invariants=["StepInv"], constraint="Bound", view="ViewSt", timeout=1700)]
         for d, extra in (("C12.same_key_rows_all_hit", {}), ("C12.alias_or_qualified_source_unsupported", {"FormsUsed": {"talias"}}),
-                         ("C12.helper_table_visible", {}), ("C12.null_counts_without_candidates", {})):
+                         ("C12.helper_table_visible", {}), ("C12.null_counts_without_candidates", {}),
+                         ("C12.set_expression_unsupported", {"FormsUsed": {"setexpr"}})):
             out.append(dict(name="mc_" + d.split(".")[1], consts=dict(c, Devs={d}, MaxT=2, MaxCl=1, **extra),
                             invariants=["StepInv"], constraint="Bound", view="ViewSt", devs=[d]))
         return out
